@@ -24,7 +24,8 @@ SOURCE = os.path.join(C.REPO, "src", "zope", "interface", "interface.py")
 
 RULE = ("real ``def``s: every combination of 0..4 positional-only, 0..4 positional-or-keyword (every legal "
         "number of defaults), 0..4 keyword-only parameters, with/without *name and **name, plus a random "
-        "stream with random names (incl. parameters called args/kw/self), locals and function attributes (values "
+        "stream with random names (incl. parameters called args/kw/self), locals and function attributes (names incl. "
+        "dunder names such as __wrapped__ / __isabstractmethod__ / __roles__, private and non-identifier keys; values "
         "incl. the falsy False, 0, '', (), 0.0, [], None) read back through every tagged-value accessor; "
         "described through fromFunction(f), fromMethod(bound), fromFunction(f, imlevel=1), "
         "class I(Interface): def f and class IA(ABCInterface) over class A(abc.ABC): def f; methods without a "
@@ -60,6 +61,17 @@ NVIA = 5
 
 # --------------------------------------------------------------------------- generation
 
+# attribute names that are not ordinary identifiers-for-metadata: dunder names (what decorators
+# such as functools.wraps / abc.abstractmethod leave in __dict__), private names, non-identifiers
+ODD_ATTRS = ["__roles__", "__wrapped__", "__isabstractmethod__", "__x__", "____", "_private", "_", "__",
+             "", "two words", "a.b", "\u00e9t\u00e9"]
+
+
+def _plain_attr(k):
+    # ``f.__x`` would be name-mangled inside a class body
+    return k.isidentifier() and k.isascii() and not (k.startswith("__") and not k.endswith("__"))
+
+
 def build_src(shape, via):
     def ptxt(p):
         return p[0] if p[1] is None else "%s=_o[%d]" % (p[0], p[1])
@@ -77,7 +89,8 @@ def build_src(shape, via):
         parts.append("**" + shape["varkw"])
     body = (" = ".join(shape["locals"]) + " = None") if shape["locals"] else "pass"
     lines = ["def f(%s):" % ", ".join(parts), "    " + body]
-    lines += ["f.%s = _o[%d]" % (k, v) for k, v in shape["attrs"]]
+    lines += [("f.%s = _o[%d]" % (k, v)) if _plain_attr(k) else ("f.__dict__[%r] = _o[%d]" % (k, v))
+              for k, v in shape["attrs"]]
     if via in (1, 3, 4):
         lines.append("_keep.append(f)")
         head = {1: "class C:", 3: "class I(Interface):", 4: "class A(abc.ABC):"}[via]
@@ -138,6 +151,11 @@ def _shape(rng, n0, n1, nd, nk, va, vk, nloc, nattr, tricky, self_first=False):
     loc = [next(it) for _ in range(nloc)]
     loc = [x for x in loc if x not in (vararg, varkw) and x not in [p[0] for p in P + K]]
     attrs = [[next(it), rng.randrange(len(OBJS))] for _ in range(nattr)]
+    for a in attrs:
+        if rng.random() < 0.4:
+            odd = rng.choice(ODD_ATTRS)
+            if odd not in [x[0] for x in attrs]:
+                a[0] = odd
     return {"posonly": P[:n0], "pos": P[n0:], "vararg": vararg, "kwonly": K, "varkw": varkw,
             "locals": loc, "attrs": attrs}
 
